@@ -11,6 +11,8 @@ the C entries raw_name_from_str / set_name go through.
                      byte can never be mistaken for a compression pointer), and the terminator pushed is 0
   C14.c total size   on every Ok exit the output buffer holds at most 253 bytes; every Err exit is reached through one of the
                      three documented refusals
+  C14.d read-back    in TypedIterable::name and ParsedPacket::question every name decoded by raw_name_to_str is folded with the standard
+                     ASCII lower-casing on every path to the return
 
 Not decided: that the emitted labels are exactly the dot-separated labels of the input (needs the loop invariant
 label_len = i - label_start), the read-back through raw_name_to_str, and the exact set of accepted names.
@@ -48,6 +50,42 @@ def lemma_label_start(facts, f):
     return ok, srcs
 
 
+def lowercase_rule(ctx, facts, cfg):
+    """C14.d: what a record's name / the question reads back as.  Every name produced by the wire -> text decoder in the reading
+    accessors is folded with the standard ASCII lower-casing before it can be returned."""
+    rid = 'C14.d'
+    LOW = ('make_ascii_lowercase', 'to_ascii_lowercase')
+    n = 0
+    for key in facts.inst_keys('rr_iterator::TypedIterable::name') + ['parsed_packet::ParsedPacket::question']:
+        f = facts.fns.get(key)
+        if f is None:
+            ctx.missing(rid, key)
+            continue
+        defs = F.single_defs(f)
+        decs = [(bi, b['term']) for bi, b in F.blocks(f) if b['term']['k'] == 'call' and (F.call_path(b['term']) or '').endswith('Compress::raw_name_to_str')]
+        for bi, t in decs:
+            n += 1
+            lows = set()
+            for li, lb in F.blocks(f):
+                lt = lb['term']
+                if lt['k'] == 'call' and (F.call_path(lt) or '').split('::')[-1] in LOW and lt['args']:
+                    if any(r[0] == 'call' and r[2] is t for r in F.roots(f, defs, lt['args'][0])):
+                        lows.add(li)
+            start = t['target']
+            escaped = []
+            if start is not None:
+                reach = F.reachable_blocks(f, start, avoid=lows)
+                escaped = [x for x in reach if f['blocks'][x]['term']['k'] == 'return']
+            ok = bool(lows) and not escaped
+            ctx.instance(rid, '%s: the decoded name from %s is lower-cased (std ASCII fold) on every path to the return' % (key.split('::')[-1] if '@' not in key else 'name@' + key.split('@')[-1], t.get('at')), ok=ok, site=t.get('at'))
+            if not ok:
+                ctx.violation(rid, key, 'not-lowercased@%d' % (decs.index((bi, t)) + 1), '%s can return the text decoded by raw_name_to_str without the standard ASCII lower-casing (make_ascii_lowercase) applied to it: '
+                              'a name does not read back as the lowercased input (a hand-written fold inside the decoder is not evaluated by this rule)' % key.split('::')[-1].split('@')[0],
+                              site=t.get('at'), kind='rule-violated' if not lows else 'rule-violated', config=cfg)
+    if n < 4:
+        ctx.violation(rid, '<floor>', 'decoder calls in readers', 'found %d raw_name_to_str calls in name()/question(), expected 4' % n, kind='below-floor')
+
+
 def run(ctx):
     for cfg in ctx.configs():
         if cfg == 'hooks':
@@ -57,8 +95,26 @@ def run(ctx):
         if f is None:
             ctx.missing('C14.a', FN)
             return
-        e4 = E4(facts, soft_widen=True, probes=[('Vec::<T, A>::push', FN)])
-        S = e4.summarize(FN)
+        lowercase_rule(ctx, facts, cfg)
+        # portfolio: plain widening first (fast, and enough in builds without overflow checks); if anything is left open, once more
+        # with the relaxing join (needed where the overflow checks add bounds the plain widening loses), under a time budget
+        for soft in (False, True):
+            sub = ctx.fork()
+            _one(sub, facts, f, cfg, soft)
+            if not sub.violations or soft:
+                ctx.merge(sub)
+                break
+    ctx.trust('slice-iterator / enumerate / Vec contracts in analysis/interp.py; plain widening, then the relaxing join as a fallback')
+
+
+def _one(ctx, facts, f, cfg, soft):
+    if True:
+        e4 = E4(facts, soft_widen=soft, probes=[('Vec::<T, A>::push', FN)], budget_s=600 if soft else None)
+        try:
+            S = e4.summarize(FN)
+        except Exception as e:  # noqa
+            ctx.violation('C14.a', FN, 'undecided', 'cannot analyse the conversion: %s: %s' % (type(e).__name__, e), kind='undecided', config=cfg)
+            return
         for what, n in sorted(e4.unmodelled().items()):
             ctx.violation('C14.a', '<engine>', 'unmodelled:' + str(what)[:80], 'unmodelled construct in the conversion: %s' % what, kind='undecided', config=cfg)
         obs = e4.obligations()
@@ -132,5 +188,4 @@ def run(ctx):
                         ctx.violation(rid, FN, 'total-size', 'the conversion can return Ok with %s bytes in the output buffer; the documented wire limit is %d' % (hi if hi is not None else 'unboundedly many', TOTAL_MAX), site=f['at'], config=cfg)
         if oks == 0:
             ctx.violation(rid, FN, 'no-ok-case', 'no Ok summary case with a tracked output length', kind='undecided', config=cfg)
-        ctx.sample({'config': cfg, 'obligations': len(obs), 'status': dict(e4.counts()), 'push_ranges': {k: list(v) for k, v in seen.items()}})
-    ctx.trust('slice-iterator / enumerate / Vec contracts in analysis/interp.py; soft widening precision knob on')
+        ctx.sample({'config': cfg, 'relaxing_join': soft, 'obligations': len(obs), 'status': dict(e4.counts()), 'push_ranges': {k: list(v) for k, v in seen.items()}})
